@@ -174,6 +174,7 @@ def run_check(pid, tier, replay=None):
     failures = {}      # sig -> list of (elem, failure)
     harness_errors = []
     bounds_attempted, bounds_completed = [], []
+    stage_times = {}
     truncated = False
     pool = None
     if getattr(mod, "PARALLEL", True) and ctx.nproc > 1:
@@ -185,6 +186,7 @@ def run_check(pid, tier, replay=None):
                 truncated = True
                 break
             complete = True
+            t_stage = time.time()
             it = pool.imap_unordered(_eval_one, elems, chunksize=getattr(mod, "CHUNK", 1)) if pool else map(_eval_one, elems)
             nstage = 0
             for elem, r, err in it:
@@ -213,6 +215,7 @@ def run_check(pid, tier, replay=None):
                     complete = False
                     truncated = True
                     break
+            stage_times[name] = round(time.time() - t_stage, 1)
             if complete:
                 bounds_completed.append(name)
             else:
@@ -285,6 +288,7 @@ def run_check(pid, tier, replay=None):
         "known_findings": known_counts,
         "unconfirmed": unconfirmed,
         "deadline_hit": bool(truncated),
+        "stage_wall_s": stage_times,
         "tree": build.tree_hash(),
     }
     cov.update(ctx.extra)
